@@ -123,6 +123,40 @@ Theorem C08_unrestricted_statement_is_false :
 Proof. exact C08_no_error_full_false. Qed.
 Print Assumptions C08_unrestricted_statement_is_false.
 
+(* third session, fourth round (EGraph/ModelFuel.v, Termination*.v, 14 files): TERMINATION.  PROVED with no hypothesis: union_internal
+   terminates from every state satisfying the reachable invariants (it recurses only after shrink_slots has removed a slot from a leader
+   class: the weight "sum over leader classes of 1 + number of slots" strictly decreases) - C08_union_internal_terminates; a fuel-parametric
+   copy of the model (ModelFuel.v) agrees with Model.v whenever the latter succeeds, and its results do not depend on the fuels
+   (C08_fuel_parametric_results_are_fuel_independent); a well-formed history either succeeds for ALL fuel assignments above the model's
+   constants with one and the same result, or Model.v's run ran out of (constant) fuel (C08_history_total_or_model_fuel).
+   PROVED from ONE open slot-level lemma (TerminationHp.HP_cap_proper: when the subset test of the hp_loop fails, the cap computed by
+   handle_shrink_in_upwards_merge is a PROPER subset - true in all 10 953 rounds evaluated; not derivable from the existing invariants):
+   every hp_loop round after a failed test strictly decreases the weight, the loop's own fuel settles, every handle_pending round
+   decreases (rank, number of pending entries) lexicographically, and rebuild settles (C08_rebuild_settles).  No non-terminating run was
+   found in > 25 000 evaluated histories; every round either moves the progress measure or removes exactly the popped entry. *)
+From SE Require Import EGraph.KidsFacts EGraph.ModelFuel EGraph.TerminationUnion EGraph.TerminationHp EGraph.Termination.
+Theorem C08_union_internal_terminates : forall (E : node -> Prop) l r s,
+  kinv s -> hce E s -> covers s l -> covers s r -> exists f res, union_internal f l r s = Ok res.
+Proof. exact union_internal_terminates. Qed.
+Print Assumptions C08_union_internal_terminates.
+
+Theorem C08_fuel_parametric_results_are_fuel_independent : forall ph ph' terms ops hs s r r',
+  run_ops_f ph terms ops hs s = Ok r -> run_ops_f ph' terms ops hs s = Ok r' -> r = r'.
+Proof. exact run_ops_f_indep. Qed.
+Print Assumptions C08_fuel_parametric_results_are_fuel_independent.
+
+Theorem C08_history_total_or_model_fuel : forall terms ops, List.Forall term_static terms -> ops_in_range terms ops ->
+  (exists hs s, forall ph, fuels_le model_fuels ph -> run_ops_f ph terms ops [] empty_egraph = Ok (hs, s)) \/
+  run_ops terms ops [] empty_egraph = Err OutOfFuel.
+Proof. exact run_ops_f_total_or_model_fuel. Qed.
+Print Assumptions C08_history_total_or_model_fuel.
+
+Theorem C08_rebuild_settles : HP_cap_proper -> forall s, Jm noex s -> Kx s ->
+  exists f, (forall f', (f <= f')%nat -> rebuild f' s = rebuild f s) /\
+    ((exists s', rebuild f s = Ok (tt, s') /\ Jm noex s' /\ Kx s' /\ pending s' = []) \/ rebuild f s = Err OutOfFuel).
+Proof. exact rebuild_settles_from_cap. Qed.
+Print Assumptions C08_rebuild_settles.
+
 Definition C08_no_error_full : Prop :=
   forall terms ops, exists hs s, run_ops terms ops [] empty_egraph = Ok (hs, s).
 
